@@ -391,7 +391,7 @@ def run_scenario(task):
                         rr = random.Random('%s/%s' % (sname, o.label))
                         for trial in range(6 if cvars else 0):
                             vals = rr.sample(range(-9, 10), min(len(cvars), 19))
-                            eqs = [v == z3.Q(vals[i % len(vals)], 2 if trial % 2 else 1) for i, v in enumerate(cvars)]
+                            eqs = [v == z3.Q(vals[i % len(vals)], (1, 2, 3, 7, 10, 13)[trial % 6]) for i, v in enumerate(cvars)]
                             rn = ctx.check(z3.Not(c), *eqs, *extra, defs=True, timeout_ms=8000, npc=npc, nas=nas)
                             if rn == z3.sat and attempt(ctx.last.model()):
                                 handled = True
